@@ -64,6 +64,9 @@ type c12Case struct {
 	Items     []item   `json:"items"`
 	Parallel  bool     `json:"parallel"`
 	Fresh     bool     `json:"fresh"`
+	Pool      bool     `json:"pool"` // server with a (small, slow) worker pool: Handler.Pool != nil
+	Max       int      `json:"max"`  // Service.MaxRequestLength of the server (0: the executor's default)
+	N         int      `json:"n"`
 	Wire      bool     `json:"wire"`
 	TimeoutMs int      `json:"timeout_ms"`
 	Data      []string `json:"data"`
@@ -120,6 +123,13 @@ type c12Obs struct {
 	Status    int       `json:"status,omitempty"`
 	Crcs      []uint32  `json:"crcs,omitempty"`
 	Got       string    `json:"got,omitempty"`
+	OKCount   int       `json:"ok_count,omitempty"`
+	Done      int       `json:"done,omitempty"`
+	Fails     []string  `json:"fails,omitempty"`
+	C2SHdrs   string    `json:"c2s_hdrs,omitempty"`
+	S2CHdrs   string    `json:"s2c_hdrs,omitempty"`
+	DelivN    int       `json:"delivered_n,omitempty"`
+	DelivSha  string    `json:"delivered_sha1,omitempty"`
 	Note      string    `json:"note,omitempty"`
 }
 
@@ -219,6 +229,25 @@ func (s *srv) setScript(items []item) {
 	s.mu.Unlock()
 }
 
+// slowPool: a real core.WorkerPool with a short bounded queue and two slow workers, so that a
+// submitted task runs well after the receive loop has gone on to later frames
+type slowPool struct{ q chan func() }
+
+func newSlowPool() *slowPool {
+	p := &slowPool{q: make(chan func(), 8)}
+	for w := 0; w < 2; w++ {
+		go func() {
+			for f := range p.q {
+				time.Sleep(300 * time.Microsecond)
+				f()
+			}
+		}()
+	}
+	return p
+}
+
+func (p *slowPool) Submit(f func()) { p.q <- f }
+
 var (
 	servers = map[string]*srv{}
 	tmpDir  string
@@ -241,14 +270,28 @@ func newClient(s *srv, timeout time.Duration) *core.Client {
 	return c
 }
 
-func getServer(name string) (*srv, error) {
-	if s, ok := servers[name]; ok {
+func getServer(name string, pool bool, max int) (*srv, error) {
+	key := fmt.Sprintf("%s|%v|%d", name, pool, max)
+	if s, ok := servers[key]; ok {
 		return s, nil
 	}
 	s := &srv{name: name, script: map[string][]byte{}}
 	s.service = rpc.NewService()
 	s.service.MaxRequestLength = maxRequestLength
+	if max > 0 {
+		s.service.MaxRequestLength = max
+	}
 	s.service.Use(core.IOHandler(s.handle))
+	if pool {
+		switch name {
+		case "tcp", "unix":
+			rpc.SocketHandler(s.service).Pool = newSlowPool()
+		case "udp":
+			rpc.UDPHandler(s.service).Pool = newSlowPool()
+		case "ws":
+			rpc.WebSocketHandler(s.service).Pool = newSlowPool()
+		}
+	}
 	switch name {
 	case "tcp":
 		ln, err := net.Listen("tcp", "127.0.0.1:0")
@@ -268,7 +311,7 @@ func getServer(name string) (*srv, error) {
 			}
 			tmpDir = d
 		}
-		path := filepath.Join(tmpDir, "s.sock")
+		path := filepath.Join(tmpDir, fmt.Sprintf("s%d.sock", len(servers)))
 		ln, err := net.Listen("unix", path)
 		if err != nil {
 			return nil, err
@@ -323,7 +366,7 @@ func getServer(name string) (*srv, error) {
 	}
 	time.Sleep(20 * time.Millisecond)
 	s.client = newClient(s, 10*time.Second)
-	servers[name] = s
+	servers[key] = s
 	return s, nil
 }
 
@@ -434,12 +477,13 @@ func (r *tcpRelay) pipe(from, to net.Conn, rec *[]byte) {
 }
 
 type udpRelay struct {
-	front *net.UDPConn
-	back  *net.UDPConn
-	mu    sync.Mutex
-	c2s   [][]byte
-	s2c   [][]byte
-	peer  *net.UDPAddr
+	hdrOnly bool // keep only the first 8 bytes of every datagram
+	front   *net.UDPConn
+	back    *net.UDPConn
+	mu      sync.Mutex
+	c2s     [][]byte
+	s2c     [][]byte
+	peer    *net.UDPAddr
 }
 
 func newUDPRelay(upstream string) (*udpRelay, error) {
@@ -464,7 +508,11 @@ func newUDPRelay(upstream string) (*udpRelay, error) {
 			}
 			r.mu.Lock()
 			r.peer = addr
-			r.c2s = append(r.c2s, append([]byte{}, buf[:n]...))
+			k := n
+			if r.hdrOnly && k > 8 {
+				k = 8
+			}
+			r.c2s = append(r.c2s, append([]byte{}, buf[:k]...))
 			r.mu.Unlock()
 			back.Write(buf[:n])
 		}
@@ -477,7 +525,11 @@ func newUDPRelay(upstream string) (*udpRelay, error) {
 				return
 			}
 			r.mu.Lock()
-			r.s2c = append(r.s2c, append([]byte{}, buf[:n]...))
+			k := n
+			if r.hdrOnly && k > 8 {
+				k = 8
+			}
+			r.s2c = append(r.s2c, append([]byte{}, buf[:k]...))
 			peer := r.peer
 			r.mu.Unlock()
 			if peer != nil {
@@ -498,7 +550,7 @@ func opCrc(c *c12Case, o *c12Obs) {
 
 // real client -> real server, one or many requests
 func opCalls(c *c12Case, o *c12Obs) {
-	s, err := getServer(c.T)
+	s, err := getServer(c.T, c.Pool, c.Max)
 	if err != nil {
 		o.Env = err.Error()
 		return
@@ -611,6 +663,71 @@ func opCalls(c *c12Case, o *c12Obs) {
 	}
 }
 
+// many cheap sequential calls on ONE connection of a fresh client, through a relay that keeps
+// the 8 header bytes of every datagram: the index the client frames for call k, for k up to N
+func opIndexRun(c *c12Case, o *c12Obs) {
+	s, err := getServer("udp", c.Pool, c.Max)
+	if err != nil {
+		o.Env = err.Error()
+		return
+	}
+	s.drain()
+	relay, err := newUDPRelay(s.addr)
+	if err != nil {
+		o.Env = err.Error()
+		return
+	}
+	relay.mu.Lock()
+	relay.hdrOnly = true
+	relay.mu.Unlock()
+	defer relay.front.Close()
+	defer relay.back.Close()
+	client := rpc.NewClient("udp://" + relay.front.LocalAddr().String() + "/")
+	defer client.Abort()
+	client.Timeout = 1500 * time.Millisecond
+	failed := 0
+	for k := 1; k <= c.N && failed < 3; k++ {
+		req := []byte{byte(k >> 24), byte(k >> 16), byte(k >> 8), byte(k)}
+		resp, err := request(s, client, req)
+		o.Done = k
+		switch {
+		case err != nil && isEnvErr(err):
+			o.Env = err.Error()
+			return
+		case err != nil:
+			failed++
+			o.Fails = append(o.Fails, fmt.Sprintf("call %d: %s", k, err.Error()))
+		case !bytes.Equal(resp, append([]byte("r:"), req...)):
+			failed++
+			o.Fails = append(o.Fails, fmt.Sprintf("call %d: answer %s", k, enc(resp)))
+		default:
+			o.OKCount++
+		}
+	}
+	time.Sleep(10 * time.Millisecond)
+	s.mu.Lock()
+	h := sha1.New()
+	for _, b := range s.log {
+		if !bytes.HasPrefix(b, healthPrefix) {
+			o.DelivN++
+			h.Write(b)
+		}
+	}
+	s.log = nil
+	s.mu.Unlock()
+	o.DelivSha = hex.EncodeToString(h.Sum(nil))
+	relay.mu.Lock()
+	var a, b []byte
+	for _, d := range relay.c2s {
+		a = append(a, d...)
+	}
+	for _, d := range relay.s2c {
+		b = append(b, d...)
+	}
+	relay.mu.Unlock()
+	o.C2SHdrs, o.S2CHdrs = hexOrDash(a), hexOrDash(b)
+}
+
 func hexOrDash(b []byte) string {
 	if len(b) == 0 {
 		return "-"
@@ -633,7 +750,7 @@ func dialRetry(network, addr string) (net.Conn, error) {
 
 // a raw stream client facing the real socket server
 func opRawStream(c *c12Case, o *c12Obs) {
-	s, err := getServer(c.T)
+	s, err := getServer(c.T, c.Pool, c.Max)
 	if err != nil {
 		o.Env = err.Error()
 		return
@@ -739,7 +856,7 @@ func opRawStream(c *c12Case, o *c12Obs) {
 
 // raw datagrams from two client sockets facing the real UDP server
 func opRawUDP(c *c12Case, o *c12Obs) {
-	s, err := getServer("udp")
+	s, err := getServer("udp", c.Pool, c.Max)
 	if err != nil {
 		o.Env = err.Error()
 		return
@@ -837,7 +954,7 @@ func opRawUDP(c *c12Case, o *c12Obs) {
 
 // a raw websocket client facing the real websocket server
 func opRawWS(c *c12Case, o *c12Obs) {
-	s, err := getServer("ws")
+	s, err := getServer("ws", c.Pool, c.Max)
 	if err != nil {
 		o.Env = err.Error()
 		return
@@ -890,7 +1007,7 @@ func opRawWS(c *c12Case, o *c12Obs) {
 
 // raw bytes to the real HTTP server (net/http or fasthttp); the reply is read as one response
 func opRawHTTP(c *c12Case, o *c12Obs) {
-	s, err := getServer(c.T)
+	s, err := getServer(c.T, c.Pool, c.Max)
 	if err != nil {
 		o.Env = err.Error()
 		return
@@ -1165,6 +1282,8 @@ func c12Run(line []byte, out *json.Encoder) error {
 		opRawWS(&c, &o)
 	case "raw_http":
 		opRawHTTP(&c, &o)
+	case "udp_index_run":
+		opIndexRun(&c, &o)
 	case "fake_stream":
 		opFakeStream(&c, &o)
 	case "fake_udp":
